@@ -77,7 +77,7 @@ class CppBaseCommentModel(BaseModel):
                     output = f"{self.config.not_null.type}<{output}>"
             elif type_ref.optional and not type_ref.type_def.primitive == BaseExternalType.Primitive.function:
                 output = f"std::optional<{output}>"
-        return f"const {output} &" if is_parameter and not type_ref.type_def.cpp.by_value else output
+        return f"const {output} &" if is_parameter and type_ref and not type_ref.type_def.cpp.by_value else output
 
     @cached_property
     def comment(self):
